@@ -924,6 +924,21 @@ func genCase(r *rng.R) ecaseJ {
 	return c
 }
 
+// bigHead: a reply whose head carries n fields X-Big-<i> of size bytes each
+func bigHead(n, size int) oresp {
+	o := oresp{Proto: "HTTP/1.1", Code: 200, Reason: "OK", Framing: "cl", Body: "after a large head", HeadCL: -1, KeepOpen: true}
+	for i := 0; i < n; i++ {
+		o.Fields = append(o.Fields, hfield{fmt.Sprintf("X-Big-%d", i), strings.Repeat(string(rune('a'+i%26)), size)})
+	}
+	return o
+}
+
+func bigHeadOnly(n, size int) oresp {
+	o := bigHead(n, size)
+	o.Framing, o.Body, o.HeadCL = "none", "", 5
+	return o
+}
+
 func get(p string) xreq { return xreq{Method: "GET", Proto: p} }
 
 // corpus: the smallest earlier failures and the scenarios DESIGN.md names; they always run
@@ -1080,6 +1095,24 @@ func corpus() []ecaseJ {
 		{Class: "refused-request-with-body:407-large-body", Guard: true, MustComplete: true, Pipeline: true, Exchs: []exchJ{
 			{xreq{Method: "PUT", Proto: "HTTP/1.1", Body: strings.Repeat("0123456789abcdef", 1300)}, oresp{Local: true, Code: 407}},
 			{xreq{Method: "GET", Proto: "HTTP/1.1", Auth: true}, plain}}},
+		// a bodiless reply after which the origin closes (Connection: close), and the client has more to send:
+		// the reply must announce the close (or the connection must stay usable)
+		{Class: "bodiless-reply-origin-says-close:head", Exchs: []exchJ{
+			{xreq{Method: "HEAD", Proto: "HTTP/1.1"}, oresp{Proto: "HTTP/1.1", Code: 200, Reason: "OK", Fields: []hfield{{"Connection", "close"}}, Framing: "none", HeadCL: 5}},
+			{get("HTTP/1.1"), plain}}},
+		{Class: "bodiless-reply-origin-says-close:204", Exchs: []exchJ{{get("HTTP/1.1"), plain},
+			{get("HTTP/1.1"), oresp{Proto: "HTTP/1.1", Code: 204, Reason: "No Content", Fields: []hfield{{"Connection", "close"}}, Framing: "none", HeadCL: -1}},
+			{get("HTTP/1.1"), plain}}},
+		{Class: "bodiless-reply-origin-says-close:304", Pipeline: true, Exchs: []exchJ{
+			{get("HTTP/1.1"), oresp{Proto: "HTTP/1.1", Code: 304, Reason: "Not Modified", Fields: []hfield{{"Connection", "close"}, {"Etag", "\"x\""}}, Framing: "none", HeadCL: -1}},
+			{get("HTTP/1.1"), plain}}},
+		{Class: "bodiless-reply-origin-says-close:http10-origin-head", Exchs: []exchJ{
+			{xreq{Method: "HEAD", Proto: "HTTP/1.1"}, oresp{Proto: "HTTP/1.0", Code: 200, Reason: "OK", Framing: "none", HeadCL: 5}},
+			{get("HTTP/1.1"), plain}}},
+		// large header sets: the property says any header set
+		{Class: "large-header-set:64KiB+1-many-fields", MustComplete: true, Exchs: []exchJ{{get("HTTP/1.1"), bigHead(128, 505)}, {get("HTTP/1.1"), plain}}},
+		{Class: "large-header-set:two-long-fields", MustComplete: true, Exchs: []exchJ{{get("HTTP/1.1"), bigHead(2, 33000)}, {xreq{Method: "HEAD", Proto: "HTTP/1.1"}, bigHeadOnly(3, 30000)}, {get("HTTP/1.1"), plain}}},
+		{Class: "large-header-set:100KiB", MustComplete: true, Exchs: []exchJ{{get("HTTP/1.1"), bigHead(200, 500)}, {get("HTTP/1.1"), plain}}},
 		{Class: "chunked-with-trailers", MustComplete: true, Exchs: []exchJ{{get("HTTP/1.1"), chTr}, {get("HTTP/1.1"), plain}, {xreq{Method: "HEAD", Proto: "HTTP/1.1"}, plain}, {get("HTTP/1.1"), ch}}},
 	}...)
 }
@@ -1130,7 +1163,7 @@ func expected(x exchJ, sawGzip bool, relax304 bool, handler bool, hasRules bool)
 	}
 	var fparts []string
 	for _, k := range order {
-		fparts = append(fparts, "("+coqfmt.Str(k)+", "+coqfmt.StrList(want[k])+")")
+		fparts = append(fparts, "("+coqfmt.Str(k)+", "+cstrList(want[k])+")")
 	}
 	body := o.Body
 	clientAskedGzip := strings.Contains(x.Req.AcceptE, "gzip")
@@ -1203,7 +1236,7 @@ func expected(x exchJ, sawGzip bool, relax304 bool, handler bool, hasRules bool)
 	sort.Strings(skip)
 	return fmt.Sprintf("{| x_local := "+coqfmt.Bool(o.Local)+"; x_code := %d; x_reason := %s; x_fields := %s; x_absent := %s; x_body := %s; x_trailers := %s; x_origin := %s; x_skip := %s |}", o.Code, reason,
 		coqfmt.List("(list N * list (list N))", fparts), coqfmt.StrList(anames), cstr(body), coqfmt.List("(list N * list (list N))", tparts),
-		coqfmt.Header(origin), coqfmt.StrList(skip))
+		cHeader(origin), coqfmt.StrList(skip))
 }
 
 func reqClose(x xreq) bool {
@@ -1456,6 +1489,10 @@ func runE2E(r *rng.R, thorough bool, ss *shardSet, m *meta, out string) {
 	for i := 0; i < n; i++ {
 		cases = append(cases, genCase(r))
 	}
+	if thorough {
+		cases = append(cases, ecaseJ{Class: "large-header-set:512KiB", MustComplete: true, Exchs: []exchJ{{get("HTTP/1.1"), bigHead(128, 4096)},
+			{get("HTTP/1.1"), oresp{Proto: "HTTP/1.1", Code: 200, Reason: "OK", Framing: "cl", Body: "ok", HeadCL: -1, KeepOpen: true}}}})
+	}
 	// body logging (--log-http body): many connections at the same time, every reply with a body of its own
 	nlog := 16
 	if thorough {
@@ -1625,12 +1662,19 @@ func partialBody(v11 bool, b []byte) []byte {
 	}
 }
 
-func sseScen(class string, term string, framing string, handler bool, req xreq, gap int) tscen {
+func sseScen(class string, term string, framing string, handler bool, req xreq, gap int, opt ...string) tscen {
+	ct, proto := "text/event-stream", "HTTP/1.1"
+	if len(opt) > 0 {
+		ct = opt[0]
+	}
+	if len(opt) > 1 {
+		proto = opt[1]
+	}
 	sc := tscen{Class: class, Handler: handler, Req: req, GapMs: gap}
 	evs := []string{"data: e1" + term, ": comment" + term[:len(term)/2] + "data: e2" + term, "data: e3" + term}
 	switch framing {
 	case "chunked":
-		sc.Pieces = []string{"HTTP/1.1 200 OK\r\nContent-Type: text/event-stream\r\nTransfer-Encoding: chunked\r\n\r\n"}
+		sc.Pieces = []string{"HTTP/1.1 200 OK\r\nContent-Type: " + ct + "\r\nTransfer-Encoding: chunked\r\n\r\n"}
 		sc.BodyEnd = []int{-1}
 		n := 0
 		for _, e := range evs {
@@ -1642,7 +1686,7 @@ func sseScen(class string, term string, framing string, handler bool, req xreq, 
 		sc.BodyEnd = append(sc.BodyEnd, -1)
 	default: // close-delimited
 		sc.Close = true
-		sc.Pieces = []string{"HTTP/1.1 200 OK\r\nContent-Type: text/event-stream\r\n\r\n"}
+		sc.Pieces = []string{proto + " 200 OK\r\nContent-Type: " + ct + "\r\n\r\n"}
 		sc.BodyEnd = []int{-1}
 		n := 0
 		for _, e := range evs {
@@ -1668,6 +1712,11 @@ func timingScenarios(gap int) []tscen {
 			out = append(out, sseScen(pre+"sse-close-delimited-"+t.n, t.term, "close", handler, g11, gap))
 		}
 		out = append(out, sseScen(pre+"sse-chunked-lf-http10-client", "\n\n", "chunked", handler, g10, gap))
+		// media types are case-insensitive and may carry parameters; delivery delimited by the end of the connection
+		// (HTTP/1.0 client, HTTP/1.0 origin), where only the event-stream writer flushes after LF LF
+		out = append(out, sseScen(pre+"sse-media-type-case:http10-client", "\n\n", "chunked", handler, g10, gap, "Text/Event-Stream"))
+		out = append(out, sseScen(pre+"sse-media-type-params-upper:http10-client", "\n\n", "close", handler, g10, gap, "TEXT/EVENT-STREAM; charset=utf-8"))
+		out = append(out, sseScen(pre+"sse-media-type-case:http10-origin", "\n\n", "close", handler, g11, gap, "Text/Event-Stream", "HTTP/1.0"))
 		// terminator split over two origin writes (close-delimited): complete only with the second
 		out = append(out, tscen{Class: pre + "sse-close-delimited-terminator-straddles-writes", Handler: handler, Req: g11, GapMs: gap, Close: true,
 			Pieces:  []string{"HTTP/1.1 200 OK\r\nContent-Type: text/event-stream\r\n\r\n", "data: e1\r\n\r", "\ndata: e2\n", "\ndata: e3\n\n"},
